@@ -16,6 +16,8 @@
 //   write <via> <path> <name> <kind> <i> write catalogue value i through the session handle
 //   read  <via> <path> <name> <kind> <i|-|?> <prefill>   read from a fresh READ handle
 //                                        -> match | mismatch got=.. want=.. | value .. | is <i> | other .. | exc ..
+//   fresh / endfresh                     bracket the reads of one observation: they share ONE fresh READ
+//                                        handle (opened after the call under test) instead of one each
 //   fhash                                checksum of the file bytes
 //   catalog                              list kinds/values
 // <via>: g = getWriter("/first") + openChild(rest), r = getWriter() + openChild(all)
@@ -483,6 +485,7 @@ int main() {
   auto kinds = MakeKinds();
   std::string fname;
   std::unique_ptr<CheckpointFile> session;
+  std::unique_ptr<CheckpointFile> observer;
   std::string line;
   long seq = 0;
   while (std::getline(std::cin, line)) {
@@ -492,6 +495,7 @@ int main() {
     in >> cmd;
     std::cout << "cmd " << seq << " " << line << std::endl;
     try {
+      if (cmd != "read") observer.reset();  // an observation is a run of consecutive reads
       if (cmd == "file") {
         session.reset();
         in >> fname;
@@ -530,7 +534,10 @@ int main() {
         in >> via >> path >> name >> kind >> want >> prefill;
         KindBase& k = *kinds.at(kind);
         Blob got;
-        {
+        if (observer) {  // the fresh handle opened by `fresh` for this observation
+          CheckpointReader r = ReaderFor(*observer, via, path);
+          got = k.read(r, PctDecode(name), prefill != 0);
+        } else {
           CheckpointFile fresh(fname, CheckpointAccessLevel::READ);
           CheckpointReader r = ReaderFor(fresh, via, path);
           got = k.read(r, PctDecode(name), prefill != 0);
@@ -554,6 +561,11 @@ int main() {
             std::cout << "mismatch got=" << Describe(got) << " want=" << Describe(exp) << std::endl;
           }
         }
+      } else if (cmd == "fresh") {  // one fresh READ handle for the reads of one observation
+        observer.reset(new CheckpointFile(fname, CheckpointAccessLevel::READ));
+        std::cout << "ok" << std::endl;
+      } else if (cmd == "endfresh") {
+        std::cout << "ok" << std::endl;
       } else if (cmd == "fhash") {
         std::ifstream f(fname, std::ios::binary);
         if (!f) {
